@@ -84,6 +84,14 @@ Theorem C10_honest_transfer_completes :
 Proof. exact honest_transfer_completes. Qed.
 Print Assumptions C10_honest_transfer_completes.
 
+(* ... and every request on a clean connection, reused or new, starts in such a state (several requests per connection) *)
+Theorem C10_request_starts :
+  forall (hash : bytes) (n : Z) (known : option Z) (c : client),
+    c_buf c = [] -> c_lost c = false -> (known = None \/ known = Some n) ->
+    Start hash n known (c_now c + c_T c) (request hash known c).
+Proof. exact request_starts. Qed.
+Print Assumptions C10_request_starts.
+
 (* NEVER POISONED.  For every connection state, every requested (hash, known length >= 0) and EVERY sequence of events
    (any bytes in any segments, late bytes, loop runs, clock advances, connection loss): if the blob ends up verified,
    the saved bytes hash to the requested hash, have the blob's length, and are exactly what the writer was handed. *)
